@@ -24,7 +24,8 @@ T = {
  "C06-m06": ("C06", "a reader that repeats a read while a writer commits between cache layers; needs the pause-point interleavings or stress",
              "caught", "quick seed 1", "c06 repeat-read-differs", None),
  "C07-p07": ("C07", "a commit whose clock did not advance (lamport bump), then a restart, then a clock still not beyond the pre-restart maximum",
-             None, None, None, None),
+             "caught", "quick seed 1", "c07/change-id-not-greater/after-Restart/..., c07/change-id-not-greater/after-Commit/...",
+             "first run was inconclusive: with the change a restart can fail, and the harness panicked on the next step instead of ending that worker's history; fixed (and a shadowed variable in the signature)"),
  "C08-m08": ("C08", "three replicas: write on A, later purge of the same attribute on B, C refreshed from B before A's write reached B, then A's write reaches C",
              "caught", "quick seed 1", "c08/bounded/live-entry-attributes-differ/{description,member,directmemberof+memberof}/replicated",
              "missed twice (random 3-replica histories, then a random late-joiner sub-profile); added the bounded exhaustive part c08_bounded (every sequence over write/purge/refresh/replicate symbols on three real replicas)"),
@@ -42,6 +43,12 @@ T = {
  "C17-m17": ("C17", "a leaf entry gains or loses a direct link to a group it also reaches through another path (memberof unchanged, directmemberof must change)",
              "caught", "quick seed 1", "c17/directmemberof-misses-group/after-add_member, c17/directmemberof-has-extra-group/after-rem_member",
              "missed at first (shortcut edges too rare; cyclic-graph classification also covered directmemberof); added the dense sub-profile and narrowed the classification to memberof"),
+ "C18-q18": ("C18", "a dynamic group's filter is edited, then a later operation creates or edits a candidate whose match differs between the old and the new filter (no schema reload in between)",
+             "caught", "quick seed 1", "c18/dynmember-misses-matching-entry/after-create, c18/dynmember-has-non-matching-entry/after-set_desc", None),
+ "C25-q25": ("C25", "a freshly bootstrapped database, an acting user whose only admin role is idm_unix_admins (added directly), a high-privilege target and one of the unix attributes",
+             None, None, None, None),
+ "C34-q34": ("C34", "in one write transaction a key is revoked and the same key object is modified again (rotate / revoke / any change) before commit, the key's previous status change being from an earlier transaction",
+             None, None, None, None),
  "C19-n19": ("C19", "two entries in one incoming replication change set end up with the same name while no third entry holds it",
              "caught", "quick seed 1", "c19/duplicate-unique-value/{name,spn}/replicated", None),
  "C22-p22": ("C22", "an entry is deleted, the domain is renamed, then the entry is revived",
